@@ -124,13 +124,19 @@ INIT_BLOCK = st.builds(lambda cb, nonce, txs: {'cb': cb, 'nonce': nonce, 'coll':
 
 def case_strategy(queries):
     return st.builds(
-        lambda a, p, init, ops, tape, cache0: {'activation': a, 'prefetch': p, 'init': init,
-                                               'ops': ops, 'tape': tape, 'cache0': cache0},
+        lambda a, p, init, ops, tape, cache0, bulk, start_fork: {
+            'activation': a, 'prefetch': p, 'init': init, 'ops': ops, 'tape': tape, 'cache0': cache0,
+            'bulk': bulk, 'start_fork': start_fork},
         st.integers(0, 12), st.integers(1, 8),
         st.lists(INIT_BLOCK, min_size=8, max_size=12),
         st.lists(op_strategy(queries), min_size=3, max_size=22),
         st.lists(st.integers(0, 3), max_size=60),
-        st.sampled_from([False, False, True]))
+        st.sampled_from([False, False, True]),
+        # bulk stratum (as C03's): the first block is padded so that the chain's transaction count
+        # reaches 256 / 512 around the end of the initial chain (+ offset)
+        st.none() | st.none() | st.tuples(st.integers(0, 2), st.integers(-6, 12)).map(list),
+        # (used by C11) the daemon reorganises while the server is still starting up
+        st.sampled_from([0, 0, 0, 1, 2]))
 
 
 # ---- the machine -------------------------------------------------------------------------------
@@ -152,8 +158,8 @@ class SystemMachine:
     def __init__(self, scratch, case, queries=False):
         self.case = case
         self.queries = queries
-        self.world = W.World(activation=case['activation'])
-        self.world.extend(case['init'])
+        from pbt.checks.c03 import initial_world
+        self.world = initial_world(case)
         self.coin = make_coin(case['activation'], case['prefetch'])
         self.chooser = Chooser(case.get('tape', ()))
         self.db_dir = fresh_dir(scratch)
@@ -243,6 +249,9 @@ class SystemMachine:
     def fail(self, message, sig):
         if self.violation is None:
             self.violation = (message, sig)
+
+    def before_start(self, loop):
+        pass
 
     def client(self, idx):
         live = [c for c in self.clients if not c.closed]
@@ -346,6 +355,7 @@ class SystemMachine:
         if cache_mb == 0:
             self.info['classes'].add('cache_pressure')
         try:
+            self.before_start(loop)
             await self.server.start()
             self.rpc = self.server.connect('127.0.0.1', 8000, rpc=True)
             c0 = await self.connect()
